@@ -79,7 +79,7 @@ func topology.NextReadEndpoint
   ensures C20/secondary-only: result_0 != nil && pref == Secondary ==> result_0.nodeType == secondary
   ensures C20/preferred: result_0 != nil && (pref == PrimaryPreferred || pref == SecondaryPreferred) ==> result_0 == t.primary || result_0.nodeType == secondary
   ensures C20/cursor-on-returned: result_0 != nil && result_0 != t.primary ==> 0 <= t.cIndex && t.cIndex < len(t.endpoints) && t.endpoints[t.cIndex] == result_0
-  ensures C20/no-endpoint-error: result_0 == nil ==> result_1 == ErrNoEndpoint
+  ensures C20/no-endpoint-error: result_0 == nil ==> result_1 == ErrNoEndpoint && !isnil(result_1)
   // completeness: "no endpoint" is only answered when no live permitted endpoint existed
   ensures C20/complete-secondary: result_0 == nil && (pref == Secondary || pref == PrimaryPreferred || pref == SecondaryPreferred) ==> forall k int :: 0 <= k && k < len(t.endpoints) ==> !old(liveSecondary(t.endpoints[k]))
   ensures C20/complete-any: result_0 == nil && pref == Any ==> forall k int :: 0 <= k && k < len(t.endpoints) ==> old(t.endpoints[k].dead)
@@ -111,19 +111,32 @@ immutable HTTPClient.healthCheckEnabled by NewSimpleHTTPClient, NewHTTPClient, S
 immutable HTTPClient.discoveryEnabled by NewSimpleHTTPClient, NewHTTPClient, SetTopologyDiscovery.$1
 immutable BackoffRequestRetrier.Client, BackoffRequestRetrier.maxRetries, BackoffRequestRetrier.backoff, BackoffRequestRetrier.log by NewBackoffRequestRetrier, NewBackoffRequestRetrierWithLogger
 
+// C20, reads: an endpoint whose request failed is marked dead BEFORE the next one is chosen
+// (whatever the failure was: the selection never returns a dead endpoint, so this is what
+// makes the loop move on - a necessary condition for a read to end within one pass over
+// the endpoints; the count of live endpoints as a decreasing measure is not formalised)
 func HTTPClient.callAny
+  props C20
+  requires c.topology != nil && TopoInv(c.topology)
   modifies everything, reqCount, lastReqWasPrimary
+  loop 1 modifies everything, reqCount, lastReqWasPrimary
+  loop 1 invariant c.topology != nil && TopoInv(c.topology)
+  loop 1 invariant C20/failed-endpoint-is-dead-before-the-next-attempt: !isnil(errRequest) && endpoint != nil ==> endpoint.dead
 
 // one request per doReq call; the ghost records whether it went to the primary
+// (ASSUMED: a request and a discovery leave the topology well-formed - discovery changes it
+// through topology.Update only, which is proved to)
 func HTTPClient.doReq
   modifies everything, reqCount, lastReqWasPrimary
   assumes reqCount == old(reqCount) + 1
   assumes lastReqWasPrimary == (c.topology != nil && endpoint == old(c.topology.primary))
+  assumes c.topology != nil ==> TopoInv(c.topology)
 
 func HTTPClient.clusterHealthCheck
   modifies everything
 func HTTPClient.discover
   modifies everything
+  assumes c.topology != nil ==> TopoInv(c.topology)
 
 // C20: a write is sent at most once, and only to the endpoint the topology
 // names as primary at that moment; the retry loop runs at most three times
